@@ -16,11 +16,21 @@ func runCoreScenario(c *Ctx, idx, nops int, timers bool) {
 		e.Listen(1, true) // a failed Listen leaves the listener usable
 	}
 	e.Listen(1, false)
+	e.NewListener(2)
+	e.Listen(2, false)
+	e.closeFirst = c.R.Intn(2) == 0
+	// while listener 1's accept loop sits in a parked Attaching callback, new peers arrive at listener 2
+	lst := func() int {
+		if e.AttachParked() {
+			return 2
+		}
+		return 1
+	}
 	ndial := 0
 	live := func() []int {
 		var ks []int
 		for k := 1; k <= e.npipes; k++ {
-			if p := e.tpipes[k]; p != nil && !p.IsClosed() {
+			if p := e.tpipes[k]; p != nil && !p.IsClosed() && !(e.AttachParked() && k == e.parkedK) {
 				ks = append(ks, k)
 			}
 		}
@@ -30,14 +40,14 @@ func runCoreScenario(c *Ctx, idx, nops int, timers bool) {
 	for i := 0; i < nops && !e.broken; i++ {
 		switch k := c.R.Intn(20); {
 		case k < 6:
-			e.Conn(1, "plain")
+			e.Conn(lst(), "plain")
 		case k == 6:
-			e.Conn(1, "hookclose")
+			e.Conn(lst(), "hookclose")
 		case k == 7:
 			if c.R.Intn(2) == 0 {
-				e.Conn(1, "refuse")
+				e.Conn(lst(), "refuse")
 			} else {
-				e.Conn(1, "deadpeer")
+				e.Conn(lst(), "deadpeer")
 			}
 		case k < 11:
 			if ks := live(); len(ks) > 0 {
@@ -67,6 +77,14 @@ func runCoreScenario(c *Ctx, idx, nops int, timers bool) {
 			}
 		case k == 15:
 			e.Listen(1, false) // already listening: address in use, nothing else changes
+		case k == 17:
+			if !e.AttachParked() {
+				e.Conn(1, "hookpark")
+			} else if c.R.Intn(3) == 0 && e.pipes[e.parkedK] != nil {
+				e.PClose(e.parkedK) // the application closes the pipe it was shown, from another goroutine
+			} else {
+				e.AttachRelease()
+			}
 		case k == 16:
 			if e.hookHold == nil {
 				e.HookHold(true)
@@ -74,7 +92,7 @@ func runCoreScenario(c *Ctx, idx, nops int, timers bool) {
 				e.HookRelease()
 			}
 		default:
-			e.Conn(1, "plain")
+			e.Conn(lst(), "plain")
 		}
 	}
 	e.Finish()
